@@ -59,6 +59,15 @@ func H_C19_event_table() {
 func H_C19_filesink_pairs() {
 	fsInit()
 	s := &FileSink{Path: fsDir, FileName: "audit.log", MaxBytes: nondetInt(), MaxFiles: 1, TimestampOnlyOnRotate: nondetBool()}
+	switch symLen(0, 2) {
+	case 1:
+		// the pass-through specials share the sink's counters as well
+		verifCaptureStd()
+		s.Path = "/dev/stdout"
+	case 2:
+		verifCaptureStd()
+		s.Path = "/dev/stderr"
+	}
 	e1 := &Event{Type: "t", Formatted: map[string][]byte{"json": []byte(nondetString())}}
 	e2 := &Event{Type: "t", Formatted: map[string][]byte{"json": []byte(nondetString())}}
 	ctx := context.Background()
